@@ -189,7 +189,7 @@ func c14Fill(x xfer, kind string, set []c14Entry, salt string) {
 }
 
 // names: 3 cache names, each assigned to exporter only (0), importer only (1), both (2): 27 assignments.
-var c14Names = []string{"a", "b", "c"}
+var c14Names = []string{"a", "b&c=d", "e+f %2B#g;h"} // two of the names need URL escaping
 
 func c14Transfer(cc c14Cell, env *Env) CellResult {
 	registerGob()
